@@ -317,10 +317,6 @@ def LSeg.isColl : LSeg → Bool
   | .collector _ _ => true
   | _ => false
 
-def LSeg.isEmptyColl : LSeg → Bool
-  | .collector [] _ => true
-  | _ => false
-
 def LSeg.isInter : LSeg → Bool
   | .collector _ .inter => true
   | _ => false
@@ -353,13 +349,13 @@ def LSeg.WF (sep : Char) (ac : Bool) : LSeg → Prop
   | .regex _ attr d term => attr ≠ [] ∧ headNotAmp attr ∧ allBare sep ['['] attr ∧
       d ≠ '\\' ∧ d ≠ ' ' ∧ d ∉ term ∧ quoteWrapped term = false
   | .keyword _ _ ps => allBare sep ['(', '['] ps
-  | .collector e op => (ac = true ∨ op = .none) ∧ headNotAmp e ∧ allBare sep ['('] e
+  | .collector e op => (ac = true ∨ op = .none) ∧ allBare sep ['('] e
 
 /-- the conclusion of every per-kind lemma.  The last part: the anchor-mark position is over after
-every segment except a collector with an empty expression (which leaves it as it was). -/
+every segment (also after an empty collector, since /repo 5554362). -/
 def Simulates (sep : Char) (strip lead : Bool) (st : PState) (ss : List Seg) (l : LSeg) : Prop :=
   ∃ st', run sep strip st (l.text sep lead) = .ok st' ∧ Inv l.isColl st' (ss ++ [l.seg strip]) ∧
-    (st'.seekingAnchorMark = true → l.isEmptyColl = true ∧ st.seekingAnchorMark = true)
+    st'.seekingAnchorMark = false
 
 theorem star_tokText {ts : List Tok} (h : '*' ∉ tokChars ts) : '*' ∉ tokText ts := by
   intro hm
@@ -438,7 +434,7 @@ theorem sim_key {sep : Char} (hsep : sep = '.' ∨ sep = '/') (strip : Bool) {ac
           · exact h2
     obtain ⟨st', hr, hi, hm⟩ := keylike_lead hsep strip h lead hlead t ts _ hc hb
       (expandSplats_plain (star_tokView strip hstar) _)
-    exact ⟨st', hr, hi, fun h => by rw [hm] at h; cases h⟩
+    exact ⟨st', hr, hi, hm⟩
 
 theorem sim_matchAll {sep : Char} (hsep : sep = '.' ∨ sep = '/') (strip : Bool) {ac : Bool}
     {st : PState} {ss : List Seg} (h : Inv ac st ss) (lead : Bool)
@@ -449,7 +445,7 @@ theorem sim_matchAll {sep : Char} (hsep : sep = '.' ∨ sep = '/') (strip : Bool
     (fun u hu => by simp at hu; subst hu; exact Or.inr (bare_star hsep))
     (by cases strip <;> decide)
   exact ⟨st', by simpa [LSeg.text, tokText, Tok.text] using hr, hi,
-    fun h => by rw [hm] at h; cases h⟩
+    hm⟩
 
 theorem sim_traverse {sep : Char} (hsep : sep = '.' ∨ sep = '/') (strip : Bool) {ac : Bool}
     {st : PState} {ss : List Seg} (h : Inv ac st ss) (lead : Bool)
@@ -462,7 +458,7 @@ theorem sim_traverse {sep : Char} (hsep : sep = '.' ∨ sep = '/') (strip : Bool
       rcases hu with rfl | rfl <;> exact Or.inr (bare_star hsep))
     (by cases strip <;> decide)
   exact ⟨st', by simpa [LSeg.text, tokText, Tok.text] using hr, hi,
-    fun h => by rw [hm] at h; cases h⟩
+    hm⟩
 
 /-! ## Bracketed kinds -/
 
@@ -521,7 +517,7 @@ theorem sim_slice {sep : Char} (strip : Bool) {ac : Bool} {st : PState}
         simp only [closeSeg, opened, List.nil_append, List.contains_eq_mem, List.mem_cons,
           decide_eq_true_eq, true_and]
         simp [hm], (lits_flags (by simp)).1⟩
-    exact ⟨st', hr, hi, fun h => by rw [hm] at h; cases h⟩
+    exact ⟨st', hr, hi, hm⟩
 
 theorem sim_index {sep : Char} (strip : Bool) {ac : Bool} {st : PState}
     {ss : List Seg} (h : Inv ac st ss) (lead : Bool) (i : Int) :
@@ -548,7 +544,7 @@ theorem sim_index {sep : Char} (strip : Bool) {ac : Bool} {st : PState}
         simp only [closeSeg, opened, List.nil_append, List.contains_eq_mem, List.mem_cons,
           decide_eq_true_eq, true_and]
         simp [hnc, hpi], (lits_flags (by simp)).1⟩
-    exact ⟨st', by simpa [LSeg.text, hx] using hr, hi, fun h => by rw [hm] at h; cases h⟩
+    exact ⟨st', by simpa [LSeg.text, hx] using hr, hi, hm⟩
 
 theorem step_amp {sep : Char} (strip : Bool) {ac : Bool} {st : PState} {ss : List Seg}
     (h : Inv ac st ss) :
@@ -583,7 +579,7 @@ theorem sim_anchor_br {sep : Char} (strip : Bool) {ac : Bool} {st : PState}
       ⟨_, by simp only [run, step_amp strip h]; exact hrun, inBr_lits hib1 hlo1.ncm _, by
         rw [closeSeg_lits]
         simp [closeSeg, b1, opened], (lits_flags hv).1⟩
-    exact ⟨st', hr, hi, fun h => by rw [hm] at h; cases h⟩
+    exact ⟨st', hr, hi, hm⟩
 
 /-! ## `&name` at top level -/
 
@@ -629,11 +625,11 @@ theorem sim_anchor_top {sep : Char} (hsep : sep = '.' ∨ sep = '/') (strip : Bo
     | false =>
       obtain ⟨h1, _, h3⟩ := hlead rfl
       obtain ⟨st', hr, hi, hm⟩ := main st h h1 h3
-      exact ⟨st', by simpa [LSeg.text, sepIf] using hr, hi, fun h => by rw [hm] at h; cases h⟩
+      exact ⟨st', by simpa [LSeg.text, sepIf] using hr, hi, hm⟩
     | true =>
       obtain ⟨st1, hs1, hi1, h1, _, h3⟩ := step_sep hsep strip h
       obtain ⟨st', hr, hi, hm⟩ := main st1 hi1 h1 h3
-      refine ⟨st', ?_, hi, fun h => by rw [hm] at h; cases h⟩
+      refine ⟨st', ?_, hi, hm⟩
       simp only [LSeg.text, sepIf, ↓reduceIte, List.cons_append, List.nil_append, run, hs1]
       simpa [run] using hr
 
@@ -833,7 +829,7 @@ theorem sim_search {sep : Char} (strip : Bool) {ac : Bool} {st : PState} {ss : L
       rw [closeSeg_lits]
       simp [closeSeg, b3, b2, afterOp, hid1, undemarcate_view strip hbt hq],
       lits_sam_false _ hsam1⟩
-  exact ⟨st', hr, hi, fun h => by rw [hm'] at h; cases h⟩
+  exact ⟨st', hr, hi, hm'⟩
 
 theorem lits_fields2 (st : PState) (k : Str) (ha : st.seekingAnchorMark = false)
     (hc : st.seekingCollectorOp = false) :
@@ -912,7 +908,7 @@ theorem sim_regex {sep : Char} (strip : Bool) {ac : Bool} {st : PState} {ss : Li
       simp only [b5, hl]
       simp [closeSeg, b4, b3, b2, afterOp, hid1, undemarcate_of_not_wrapped hq], by
       simp only [b5, hl]; exact hsam1⟩
-  exact ⟨st', hr, hi, fun h => by rw [hm'] at h; cases h⟩
+  exact ⟨st', hr, hi, hm'⟩
 
 /-! ## Keyword searches -/
 
@@ -986,7 +982,7 @@ theorem sim_keyword {sep : Char} (strip : Bool) {ac : Bool} {st : PState} {ss : 
       simp only [b5, hl]
       simp [closeSeg, b3, b1, b0, opened], by
       simp only [b5, hl]; rfl⟩
-  exact ⟨st', hr, hi, fun h => by rw [hm'] at h; cases h⟩
+  exact ⟨st', hr, hi, hm'⟩
 
 /-! ## Collectors -/
 
@@ -994,7 +990,7 @@ theorem sim_keyword {sep : Char} (strip : Bool) {ac : Bool} {st : PState} {ss : 
 def collOpened (st : PState) (ss : List Seg) (op : CollOp) : PState :=
   { st with segs := ss.reverse, segId := [], seekingCollectorOp := false, collectorLevel := 1,
             stack := ['('], count := 1, segType := some .collector, nextCharMustBe := none,
-            collectorOp := op }
+            collectorOp := op, seekingAnchorMark := false }
 
 theorem step_collOp {sep : Char} (strip : Bool) {st : PState} {ss : List Seg}
     (h : Inv true st ss) (op : CollOp) (c : Char) (hop : op.text = [c])
@@ -1022,7 +1018,7 @@ theorem openParen_top {sep : Char} (strip : Bool) (s : PState) (ss : List Seg) (
     dispatch sep strip s '(' =
       .cont { s with segs := ss.reverse, segId := [], seekingCollectorOp := false,
                      collectorLevel := 1, stack := ['('], count := 1,
-                     segType := some .collector } := by
+                     segType := some .collector, seekingAnchorMark := false } := by
   obtain ⟨e, r, s', n⟩ := hlit
   have hd : dispatch sep strip s '(' = hOpenParen s '(' := by simp [dispatch, e, r, s', n]
   rw [hd]
@@ -1056,7 +1052,7 @@ theorem sim_collector {sep : Char} (strip : Bool) {ac : Bool} {st : PState} {ss 
     (hwf : LSeg.WF sep ac (.collector e op))
     (hamp : op = .inter → st.seekingAnchorMark = false) :
     Simulates sep strip lead st ss (.collector e op) := by
-  obtain ⟨hop, hhead, hb⟩ := hwf
+  obtain ⟨hop, hb⟩ := hwf
   have hq := h.q
   -- the operator and the opening parenthesis
   have hopen : run sep strip st (op.text ++ ['(']) = .ok (collOpened st ss op) := by
@@ -1085,18 +1081,10 @@ theorem sim_collector {sep : Char} (strip : Bool) {ac : Bool} {st : PState} {ss 
       apply run_toks sep strip b t ts hlo
       · rcases hb t (by simp) with h1 | h1
         · exact Or.inl h1
-        · rcases hhead t (by simp) with h2 | h2
-          · exact Or.inl h2
-          · exact Or.inr ⟨h1, by simp [h2], by simp [b, collOpened]⟩
+        · exact Or.inr ⟨h1, by simp [b, collOpened], by simp [b, collOpened]⟩
       · intro u hu; exact hb u (by simp [hu])
-  have hsam : (b.lits (tokView strip e)).seekingAnchorMark = true →
-      (LSeg.collector e op).isEmptyColl = true ∧ st.seekingAnchorMark = true := by
-    cases e with
-    | nil => rw [tokView_nil]; intro hh; exact ⟨rfl, hh⟩
-    | cons t ts =>
-      intro hh
-      rw [(lits_flags (tokView_ne strip (List.cons_ne_nil t ts))).1] at hh
-      cases hh
+  have hsam : (b.lits (tokView strip e)).seekingAnchorMark = false :=
+    lits_sam_false _ rfl
   obtain ⟨cnt, sam, sco, hl⟩ := lits_fields b (tokView strip e)
   let fin : PState := { b.lits (tokView strip e) with
     stack := []
@@ -1118,9 +1106,7 @@ theorem sim_collector {sep : Char} (strip : Bool) {ac : Bool} {st : PState} {ss 
   · simp only [fin, hl]
     refine ⟨⟨⟨hq.lit.esc, hq.lit.rx, hq.lit.srd, rfl⟩, rfl, rfl, rfl, rfl⟩, rfl, ?_⟩
     simp [flushedSegs, LSeg.seg, b, collOpened]
-  · intro hh
-    apply hsam
-    simpa [fin] using hh
+  · simpa [fin] using hsam
 
 /-! ## Composition over a list of loosely written segments -/
 
@@ -1159,45 +1145,45 @@ def textFrom (sep : Char) : Bool → List LSeg → Str
 def textAll (fslash : Bool) (ls : List LSeg) : Str :=
   if fslash then '/' :: textFrom '/' false ls else textFrom '.' false ls
 
-/-- well-formedness along a list.  `ac`: the previous segment was a collector; `mm`: the
-anchor-mark position may still be open (start of a forward-slash path, and then only across collectors
-with an empty expression) — there an `&` collector operator would be taken for an anchor mark. -/
-def wfFromL (sep : Char) : Bool → Bool → List LSeg → Prop
-  | _, _, [] => True
-  | ac, mm, l :: r => l.WF sep ac ∧ (l.isInter = true → mm = false) ∧
-      wfFromL sep l.isColl (mm && l.isEmptyColl) r
+/-- well-formedness along a list.  `ac`: the previous segment was a collector. -/
+def wfFromL (sep : Char) : Bool → List LSeg → Prop
+  | _, [] => True
+  | ac, l :: r => l.WF sep ac ∧ wfFromL sep l.isColl r
 
 /-- whether the last segment of the list (or, for the empty list, the one before) is a collector -/
 def lastAc : Bool → List LSeg → Bool
   | ac, [] => ac
   | _, l :: r => lastAc l.isColl r
 
+theorem inter_ac {sep : Char} {ac : Bool} {l : LSeg} (hw : l.WF sep ac) (hi : l.isInter = true) :
+    ac = true := by
+  cases l <;> simp [LSeg.isInter] at hi
+  case collector e op =>
+    cases op <;> simp at hi
+    rcases hw.1 with h | h
+    · exact h
+    · cases h
+
 theorem run_texts {sep : Char} (hsep : sep = '.' ∨ sep = '/') (strip : Bool) :
-    ∀ (ls : List LSeg) (ac mm : Bool) (st : PState) (ss : List Seg) (lead : Bool),
+    ∀ (ls : List LSeg) (ac : Bool) (st : PState) (ss : List Seg) (lead : Bool),
     Inv ac st ss →
     (lead = false → st.segId = [] ∧ st.segType = none ∧
       (∀ l ∈ ls.head?, l.isTop = true → st.seekingAnchorMark = true)) →
-    (mm = false → st.seekingAnchorMark = false) →
-    wfFromL sep ac mm ls →
+    (ac = true → st.seekingAnchorMark = false) →
+    wfFromL sep ac ls →
     ∃ st', run sep strip st (textFrom sep lead ls) = .ok st' ∧
       Inv (lastAc ac ls) st' (ss ++ ls.map (LSeg.seg strip)) := by
   intro ls
   induction ls with
-  | nil => intro ac mm st ss lead h _ _ _; exact ⟨st, by simp [textFrom, run], by simpa [lastAc] using h⟩
+  | nil => intro ac st ss lead h _ _ _; exact ⟨st, by simp [textFrom, run], by simpa [lastAc] using h⟩
   | cons l r ih =>
-    intro ac mm st ss lead h hlead hmm hwf
-    obtain ⟨hw1, hw2, hw3⟩ := hwf
+    intro ac st ss lead h hlead hac hwf
+    obtain ⟨hw1, hw3⟩ := hwf
     obtain ⟨st1, hr1, hi1, hm1⟩ := sim_any hsep strip h lead l
       (fun hl => ⟨(hlead hl).1, (hlead hl).2.1, (hlead hl).2.2 l (by simp)⟩)
-      (fun hi => hmm (hw2 hi)) hw1
-    obtain ⟨st2, hr2, hi2⟩ := ih l.isColl (mm && l.isEmptyColl) st1 (ss ++ [l.seg strip]) true
-      hi1 (by simp) (fun hf => by
-        by_cases hs : st1.seekingAnchorMark = true
-        · obtain ⟨h1, h2⟩ := hm1 hs
-          cases hmv : mm
-          · rw [hmm hmv] at h2; cases h2
-          · simp [hmv, h1] at hf
-        · simpa using hs) hw3
+      (fun hi => hac (inter_ac hw1 hi)) hw1
+    obtain ⟨st2, hr2, hi2⟩ := ih l.isColl st1 (ss ++ [l.seg strip]) true
+      hi1 (by simp) (fun _ => hm1) hw3
     refine ⟨st2, ?_, by simpa [lastAc] using hi2⟩
     simp only [textFrom]
     rw [run_append_ok hr1]
@@ -1246,15 +1232,14 @@ theorem textAll_head (l : LSeg) (r : List LSeg) (hw : l.WF '.' false) (x : Str) 
 /-- the parser loop over a whole loosely written path text, from the initial state of
 `_parse_path`; `b` is the initial `seeking_anchor_mark` (for dot notation: the text starts with `&`) -/
 theorem run_textAll (fslash strip : Bool) (ls : List LSeg)
-    (hwf : wfFromL (if fslash then '/' else '.') false
-      (fslash || (ls.head?.map LSeg.isTop).getD false) ls)
+    (hwf : wfFromL (if fslash then '/' else '.') false ls)
     (b : Bool) (hb : fslash = false → b = decide ((textAll false ls)[0]? = some '&')) :
     ∃ st2, run (if fslash then '/' else '.') strip { seekingAnchorMark := b } (textAll fslash ls)
         = .ok st2 ∧ Inv (lastAc false ls) st2 (ls.map (LSeg.seg strip)) := by
   cases fslash with
   | true =>
     obtain ⟨st1, hs1, hi1, h1, h2, h3⟩ := step_sep (sep := '/') (Or.inr rfl) strip (init_inv b)
-    obtain ⟨st2, hr2, hi2⟩ := run_texts (sep := '/') (Or.inr rfl) strip ls false true st1 []
+    obtain ⟨st2, hr2, hi2⟩ := run_texts (sep := '/') (Or.inr rfl) strip ls false st1 []
       false hi1 (fun _ => ⟨h1, h2, fun _ _ _ => h3⟩) (by simp) (by simpa using hwf)
     refine ⟨st2, ?_, by simpa using hi2⟩
     simp only [textAll, ↓reduceIte, run, hs1]
@@ -1265,29 +1250,22 @@ theorem run_textAll (fslash strip : Bool) (ls : List LSeg)
     cases ls with
     | nil => exact ⟨_, rfl, init_inv _⟩
     | cons l r =>
-      simp only [Bool.false_eq_true, ↓reduceIte, Bool.false_or, List.head?_cons, Option.map_some,
-        Option.getD_some] at hwf
+      simp only [Bool.false_eq_true, ↓reduceIte] at hwf
       have hw1 := hwf.1
       have hamp := text_head_amp hw1 (Or.inl rfl)
       have hhead : (textAll false (l :: r))[0]? = (l.text '.' false).head? := by
         simpa using textAll_head l r hw1 []
-      obtain ⟨st2, hr2, hi2⟩ := run_texts (sep := '.') (Or.inl rfl) strip (l :: r) false l.isTop
+      obtain ⟨st2, hr2, hi2⟩ := run_texts (sep := '.') (Or.inl rfl) strip (l :: r) false
         { seekingAnchorMark := (textAll false (l :: r))[0]? = some '&' } [] false (init_inv _)
         (fun _ => ⟨rfl, rfl, fun l' hl' ht => by
           simp at hl'; subst hl'
           show decide (_ = _) = true
           rw [hhead]; simpa using hamp.mpr ht⟩)
-        (fun hf => by
-          show decide (_ = _) = false
-          rw [hhead]
-          simp only [decide_eq_false_iff_not]
-          intro hc
-          rw [hamp.mp hc] at hf; cases hf) hwf
+        (by simp) hwf
       exact ⟨st2, by simpa [textAll] using hr2, by simpa using hi2⟩
 
 theorem textAll_ne (fslash : Bool) (ls : List LSeg)
-    (hwf : wfFromL (if fslash then '/' else '.') false
-      (fslash || (ls.head?.map LSeg.isTop).getD false) ls) (hne : ls ≠ []) :
+    (hwf : wfFromL (if fslash then '/' else '.') false ls) (hne : ls ≠ []) :
     textAll fslash ls ≠ [] := by
   cases fslash with
   | true => simp [textAll]
@@ -1295,8 +1273,7 @@ theorem textAll_ne (fslash : Bool) (ls : List LSeg)
     cases ls with
     | nil => exact absurd rfl hne
     | cons l r =>
-      simp only [Bool.false_eq_true, ↓reduceIte, Bool.false_or, List.head?_cons, Option.map_some,
-        Option.getD_some] at hwf
+      simp only [Bool.false_eq_true, ↓reduceIte] at hwf
       have := text_ne hwf.1
       simp [textAll, textFrom, this]
 
@@ -1304,8 +1281,7 @@ theorem textAll_ne (fslash : Bool) (ls : List LSeg)
 exactly those segments — the characters of the texts with `strip = true` (`escaped`), the texts as
 written with `strip = false` (`unescaped`). -/
 theorem parseWith_texts (fslash strip : Bool) (ls : List LSeg)
-    (hwf : wfFromL (if fslash then '/' else '.') false
-      (fslash || (ls.head?.map LSeg.isTop).getD false) ls)
+    (hwf : wfFromL (if fslash then '/' else '.') false ls)
     (hn : normOriginal (textAll fslash ls) = textAll fslash ls) :
     parseWith fslash strip (textAll fslash ls) = .ok (ls.map (LSeg.seg strip)) := by
   by_cases hT : textAll fslash ls = []
@@ -1330,8 +1306,7 @@ theorem parseWith_texts (fslash strip : Bool) (ls : List LSeg)
 `YAMLPath.append` builds).  After the separator the parser looks for an anchor mark, so the added
 segment must not be an `&` collector. -/
 theorem parseWith_texts_snoc (fslash strip : Bool) (ls : List LSeg) (l : LSeg)
-    (hwf : wfFromL (if fslash then '/' else '.') false
-      (fslash || (ls.head?.map LSeg.isTop).getD false) ls) (hne : ls ≠ [])
+    (hwf : wfFromL (if fslash then '/' else '.') false ls) (hne : ls ≠ [])
     (hwl : l.WF (if fslash then '/' else '.') (lastAc false ls)) (hni : l.isInter = false)
     (o1 : Str)
     (ho : o1 = textAll fslash ls ++
